@@ -656,6 +656,21 @@ fn fam_structure(tier: &str) -> Report {
             }
         }
     }
+    // 8. several wrappers in one branch, each closed explicitly right before a deferred operator (`X >>> i <<< ~Y >>> j <<< ~Z k`):
+    //    every member survives, in order
+    for w in WRAPPERS.iter() {
+        for n in 2..=3usize {
+            let mut acts: Vec<Act> = Vec::new();
+            for k in 0..n {
+                acts.push(Act { op: w, deferred: k > 0, wrap: true, operands: vec![] });
+                acts.push(Act { op: "|>", deferred: false, wrap: false, operands: vec![format!("inner{}", k)] });
+                acts.push(Act { op: "<<<", deferred: false, wrap: false, operands: vec![] });
+            }
+            acts.push(Act { op: "|>", deferred: true, wrap: false, operands: vec!["last".into()] });
+            acts.push(Act { op: "=>", deferred: false, wrap: false, operands: vec!["after_last".into()] });
+            render_h(&acts, "x", None, &mut r);
+        }
+    }
     r.exhaustive = true;
     r.notes.push(format!("22 operators x deferred x {} operand shapes; all adjacent pairs x 4 deferred patterns; 10 wrappers x 22 inner operators x 3 closing shapes; handler-keyword operands followed by `=>`; a handler directly behind a branch (with / without comma after a block operand)", opn));
     r
